@@ -10,7 +10,7 @@
    Closed under bind (`?`), hence valid for every routine built from the
    primitives and for every caller closure that is itself Faulty. *)
 Require Import BV.Model.Base BV.Model.SrcB BV.Model.Length BV.Model.Tag BV.Model.Content.
-Require Import BV.Proofs.FaultP.
+Require Import BV.Model.Prog BV.Proofs.FaultP BV.Proofs.FaultP2.
 
 Theorem C08_bind : forall A B (m : M A) (g : A -> M B),
   Faulty m -> (forall a, Faulty (g a)) -> Faulty (bind m g).
@@ -36,6 +36,26 @@ Proof. exact Faulty_read_all. Qed.
 Theorem C08_skip : forall fuel c fl, Faulty (skip_opt fuel c fl).
 Proof. exact Faulty_skip_opt. Qed.
 
+(* typed leaf readers, capture with any Faulty body, raw Source scripts *)
+Theorem C08_typed_leaves : forall ty m, Faulty (typed_prim ty m).
+Proof. exact Faulty_typed_prim. Qed.
+Theorem C08_capture : forall T (c : cons) (op : cons -> M (T * cons)), Faulty (op c) -> Faulty (capture c op).
+Proof. exact @Faulty_capture. Qed.
+Theorem C08_scripts : forall sc g lg, Faulty (run_script sc g lg).
+Proof. exact Faulty_run_script. Qed.
+
+(* EVERY decoding program (generic, typed, optional, tag-selective reads,
+   skips with filters, nested captures, scripts, mode switches) *)
+Theorem C08_programs : forall fuel,
+  (forall ps c lg, Faulty (exec fuel ps c lg)) /\ (forall bd ct, Faulty (exec_body fuel bd ct)).
+Proof. exact Faulty_exec. Qed.
+Theorem C08_any_program_on_any_input : forall fuel m ps d,
+  exists n, forall k,
+    let faulty := decode_src m (fun c => exec fuel ps c []) (mkSrc d None (Some k)) in
+    let clean := decode_src m (fun c => exec fuel ps c []) (mkSrc d None None) in
+    if n <=? k then fst faulty = fst clean else fst faulty = SErr.
+Proof. exact program_source_failure_surfaces. Qed.
+
 (* in the words of the property, for reading a whole input *)
 Theorem C08_source_failure_surfaces : forall fuel m d,
   exists n, forall k,
@@ -58,5 +78,10 @@ Print Assumptions C08_tag_if.
 Print Assumptions C08_length.
 Print Assumptions C08_header_processing.
 Print Assumptions C08_read_all.
+Print Assumptions C08_typed_leaves.
+Print Assumptions C08_capture.
+Print Assumptions C08_scripts.
+Print Assumptions C08_programs.
+Print Assumptions C08_any_program_on_any_input.
 Print Assumptions C08_skip.
 Print Assumptions C08_source_failure_surfaces.
